@@ -257,5 +257,7 @@ def _part_b(ctx):
 
 
 def run(ctx):
+    from lib import vtime
+    vtime.install()   # the protocol's 30 s linktest timer must not fire in the middle of a long session
     _part_a(ctx, 600 if ctx.quick else 6000)
     _part_b(ctx)
